@@ -15,7 +15,8 @@ JSON (examples/json/json.pest, tests/grammars/json.pest; interp / opt / gen / op
   model   lean/PestModel/Json.lean: `render` (vs the Python renderer) and `mirror` (vs the
           trees the implementation returns: exact, with spans), and the L0 specification of
           pest run on the *regenerated* grammar terms (`J accepts`, `J prefixes`): executable
-          instances of the theorems `json_accepts` / `json_rejects_prefix`
+          instances of the theorems `json_accepts_both` (proved for all documents in
+          Props/C17.lean) and `json_rejects_prefix` (OPEN)
 Calculator (examples/calculator: prec_climber.py, pratt.py, grammar_encoded_prec.py)
   impl    the three implementations, imported from a scratch copy of the package whose
           generated parser modules are rebuilt from the current grammars and generator,
@@ -91,6 +92,13 @@ THEOREMS = [
     "Pest.Json.evSkip_ws",
     "Pest.Json.val_ok",
     "Pest.Json.parse_json_doc",
+    # ---- JSON, stages 2 and 3 for tests/grammars/json.pest, and both together
+    "Pest.C17.testsJson_rules",
+    "Pest.C17.json_value_accepts_tests",
+    "Pest.C17.json_accepts_tests",
+    "Pest.C17.json_accepts_both",
+    "Pest.Json.tval_ok",
+    "Pest.Json.parse_tjson_doc",
 ]
 
 MODES = ("interp", "opt", "gen", "optgen")
@@ -1695,10 +1703,9 @@ def run(out: Outcome) -> None:  # noqa: PLR0912, PLR0915
         "direct_failures": len(calc_problems) + len(json_problems) + len(neg_problems),
         "lean_driver": _driver_mode() if lean_ok else "unavailable",
         "json_theorems_proved": ["json_number_accepts", "json_string_accepts", "json_number_accepts_tests",
-                                 "json_string_accepts_tests", "json_value_accepts (examples/json/json.pest)",
-                                 "json_accepts (examples/json/json.pest)"],
-        "json_theorems_open": ["json_accepts_tests (values and documents of tests/grammars/json.pest)",
-                               "json_rejects_prefix (both grammars)"],
+                                 "json_string_accepts_tests", "json_value_accepts", "json_value_accepts_tests",
+                                 "json_accepts", "json_accepts_tests", "json_accepts_both"],
+        "json_theorems_open": ["json_rejects_prefix (both grammars)"],
         "phases_s": {"export": round(t_export, 1), "build_and_audit": round(t_proof, 1), "search": round(t_search, 1),
                      "correspondence_and_verdict": round(time.time() - t0 - t_export - t_proof - t_search, 1)},
     }
@@ -1721,13 +1728,13 @@ def run(out: Outcome) -> None:  # noqa: PLR0912, PLR0915
         "accept raw control characters U+0000–U+001F inside strings, examples/json/json.pest accepts a fraction without "
         "digits (`1.`), tests/grammars/json.pest accepts a scalar at top level (its `json` rule is SOI ~ value ~ EOI); every "
         "other text that is not RFC 8259 must be rejected in all modes",
-        "JSON: proved in Lean (all inputs, unbounded), against the L0 specification of pest run on the regenerated grammar "
-        "terms: for both grammars every RFC 8259 number and string, in any spelling, is exactly one `number` / `string` "
-        "token with the expected pair(s) (stage 1); for examples/json/json.pest every value and every document whose "
-        "top level is a container is accepted with exactly the tree `mirror` (json_value_accepts, json_accepts).  OPEN: the "
-        "same for values/documents of tests/grammars/json.pest, and prefix rejection for both (json_rejects_prefix); "
-        "these, and the step from the specification to the four execution modes of the implementation (properties "
-        "C01-C04), rest on the failing-input search and on the executable specification (`J accepts`, `J prefixes`)",
+        "JSON: proved in Lean (all documents, unbounded), against the L0 specification of pest run on the regenerated "
+        "grammar terms of both bundled grammars: every RFC 8259 number and string, in any spelling, is exactly one token "
+        "with the expected pair(s) (stage 1), every value (stage 2) and every document whose top level is a container "
+        "(stage 3: json_accepts, json_accepts_tests, json_accepts_both) is accepted with exactly the tree `mirror`.  "
+        "OPEN: prefix rejection (json_rejects_prefix).  That, and the step from the specification to the four execution "
+        "modes of the implementation (the content of properties C01-C04), rest on the failing-input search and on the "
+        "executable specification (`J accepts`, `J prefixes`); hence level `other`",
         "Python's recursion limit is not modelled (documents nest at most 5–6 deep, expressions at most a few dozen)",
     ]
 
